@@ -147,6 +147,19 @@ func zzC09Step(r *Router[*hnd], s *zzC09State, op, i int) bool {
 		}
 		r.Prefix("/p", zzCMW("P"+n)).Resource("/z", zzCMW("T"+n)).Put(&hnd{id: 10 + i})
 		s.reg("/p/z", 10+i, []string{"T" + n, "P" + n}, "PUT")
+	case 9:
+		if s.has("/s/1/x", "GET") {
+			return false
+		}
+		// two nested prefixes receive the same caller-owned slice, which has spare capacity
+		common := make([]types.Middleware[*hnd], 0, 4)
+		common = append(common, zzCMW("C"+n+"a"), zzCMW("C"+n+"b"))
+		p1 := r.Prefix("/s", zzCMW("P"+n)).Prefix("/1", common...)
+		p2 := r.Prefix("/t", zzCMW("Q"+n)).Prefix("/2", common...)
+		p1.Get("/x", &hnd{id: 10 + i})
+		s.reg("/s/1/x", 10+i, []string{"C" + n + "a", "C" + n + "b", "P" + n}, "GET")
+		p2.Get("/y", &hnd{id: 30 + i})
+		s.reg("/t/2/y", 30+i, []string{"C" + n + "a", "C" + n + "b", "Q" + n}, "GET")
 	case 8:
 		if s.has("/a", "GET") || s.has("/a", "POST") || s.has("/a", "DELETE") {
 			return false
@@ -226,7 +239,7 @@ func ZZC09(n int) {
 	}
 	s := &zzC09State{router: "rt", first: map[string][]string{}}
 	for i := 0; i < n%100; i++ {
-		if !zzC09Step(r, s, zzv.Choice("op", 9), i) {
+		if !zzC09Step(r, s, zzv.Choice("op", 10), i) {
 			zzv.Assume(false)
 		}
 	}
